@@ -151,6 +151,24 @@ func (p *pathRun) mkPoint(fr *frame, co *curveObj, d, tau *smt.Term) (value, val
 			p.regConcPt(co, x, y, d, tau)
 			return newBigC(x), newBigC(y)
 		}
+		if co.name == "ed25519" && d.Val.Sign() == 0 {
+			// the points of order 2 and 4 have known coordinates (see pointOf)
+			P := co.real.Params().P
+			pm1 := new(big.Int).Sub(P, big.NewInt(1))
+			r := new(big.Int).ModSqrt(pm1, P)
+			switch tau.Val.Int64() {
+			case 4:
+				return newBigC(big.NewInt(0)), newBigC(pm1)
+			case 2:
+				if r != nil {
+					return newBigC(r), newBigC(big.NewInt(0))
+				}
+			case 6:
+				if r != nil {
+					return newBigC(new(big.Int).Sub(P, r)), newBigC(big.NewInt(0))
+				}
+			}
+		}
 	}
 	if co.cof > 1 {
 		// edwards25519: the identity (0,1) is an ordinary curve point; no case split,
@@ -213,6 +231,23 @@ func (p *pathRun) pointOf(fr *frame, co *curveObj, xv, yv bigval) (d, tau *smt.T
 		rp := co.real.Params()
 		if xv.c.Cmp(rp.Gx) == 0 && yv.c.Cmp(rp.Gy) == 0 {
 			return c.IntC64(1), zero, true
+		}
+		if co.name == "ed25519" {
+			// the points of order 2 and 4 (multiples 4, 2, 6 of a generator of the order-8 subgroup)
+			pm1 := new(big.Int).Sub(rp.P, big.NewInt(1))
+			if xv.c.Sign() == 0 && yv.c.Cmp(pm1) == 0 {
+				return zero, c.IntC64(4), true
+			}
+			if yv.c.Sign() == 0 {
+				if r := new(big.Int).ModSqrt(pm1, rp.P); r != nil {
+					if xv.c.Cmp(r) == 0 {
+						return zero, c.IntC64(2), true
+					}
+					if xv.c.Cmp(new(big.Int).Sub(rp.P, r)) == 0 {
+						return zero, c.IntC64(6), true
+					}
+				}
+			}
 		}
 		if xv.c.Sign() < 0 || yv.c.Sign() < 0 || !co.real.IsOnCurve(xv.c, yv.c) {
 			return nil, nil, false
